@@ -284,6 +284,22 @@ def scenario_bad_numbers(exe, workroot):
     return False, '%d bad numeric lines all diagnosed and without effect' % len(cases)
 
 
+def scenario_bad_using(exe, workroot):
+    """C16: 'using' lines whose version is not MAJOR.MINOR[.PATCH]: diagnosed, the process ends normally (no abort), later lines still take effect."""
+    d = _tmp(workroot)
+    for v in ['a.b', '0.b', '0.78.x', '99999999999999999999.1', '1', '1.2.3.4', '.5', '-1.2']:
+        cfg = _cfg(d, 'using %s\nindent_columns = 3\n' % v)
+        rc, out, err = run(exe, ['-c', cfg, '--update-config'])
+        e = err.decode(errors='replace')
+        if rc < 0 or rc >= 128 or 'terminate called' in e:
+            return True, "config line 'using %s' ends the process abnormally (status %d): %s" % (v, rc, e.strip()[-160:])
+        if 'using requires a version number' not in e:
+            return True, "config line 'using %s' is not diagnosed" % v
+        if not re.search(r'^indent_columns\s*=\s*3\b', out.decode(errors='replace'), re.M):
+            return True, "the line after 'using %s' had no effect" % v
+    return False, 'malformed using lines all diagnosed, process ends normally'
+
+
 ENUM_SAMPLES = {'sp_arith': ['ignore', 'add', 'remove', 'force'], 'newlines': ['lf', 'crlf', 'cr', 'auto'],
                 'pos_arith': ['ignore', 'break', 'force', 'lead', 'trail', 'join', 'lead_break', 'lead_force', 'trail_break', 'trail_force'],
                 'sp_cmt_cpp_doxygen': ['true', 'false']}
